@@ -210,6 +210,8 @@ def readMaterials (nElem : Nat) (bs : List (Line × List Line)) : Option (List (
     if items ≠ 1 then none else
     let names ← mbs.mapM fun b => capture c!"NAME=" b.1
     let ibs := bs.filter fun b => isItem1 b.1
+    -- one material per element and no `!ITEM` data at all: an empty table, no property is created
+    if names.length = nElem ∧ (ibs.flatMap (·.2)).isEmpty then pure [] else
     let vals ←
       if names.length = nElem then (ibs.flatMap (·.2)).mapM fun l => (splitOn ',' l).mapM parseDec
       -- an `!ITEM` block without data lines makes `np.concatenate` raise
